@@ -28,7 +28,9 @@ RULE = (
     "header) set to 0,1,2,3,orig+-1,orig+-2,0x7F,0xFE,0xFF, every code octet (status, connection type, layer, host "
     "protocol, DIB/SRP type, medium, service family, feature id, return code, session status) set to a probe set "
     "(quick) or all 256 values (thorough), announced total length in {0,1,5,6,7,n-2,n-1,n+1,n+2,n+256,65535}, trailing "
-    "octets, header octets, the body under every other known/unimplemented/unknown service code; header-only and "
+    "octets, header octets, the body under every other known/unimplemented/unknown service code; 1..4 surplus octets "
+    "(generated + 00/01020304/ff fills) behind the well-formed body inside a corrected announced length and behind an "
+    "unchanged one, for every class plus fixed basic / extended / non-tunnel CRI and CRD variants; header-only and "
     "zero bodies for every service code; random octet strings and random bodies behind valid headers; "
     "non-trivial = valid 6-octet header of an implemented service with 6 <= announced <= len(data), i.e. the input "
     "reaches a body/structure parser; distinct by input hash"
@@ -38,6 +40,10 @@ RULE = (
 )
 FUZZ_RUNS = 400_000  # executions per campaign (thorough tier)
 ASSUMPTIONS = [
+    "surplus differential: a frame accepted with surplus octets inside the announced length must have the fields of "
+    "the frame without them, except where the layout is open-ended (raw cEMI / feature value = base + surplus, secure "
+    "wrapper data|MAC boundary shifted, additional DIB / SRP list elements after the unchanged ones); it is a "
+    "metamorphic relation between two parses, rejecting the surplus with CouldNotParseKNXIP is always accepted",
     "termination is judged by a step budget, never by wall clock: steps = sys.monitoring PY_START/LINE/JUMP/BRANCH "
     "events in xknx code objects; limit = A + B*len(input) with A,B >= 20x the maximum observed on valid frames "
     "(re-verified on every run, constants in coverage.budget)",
@@ -186,6 +192,77 @@ def check_bytes(ctx, data: bytes, cls: str) -> str:
     return kind
 
 
+_ABSORB = {  # classes whose last field is open-ended: attribute that takes the surplus octets
+    "DeviceConfigurationRequest": "raw_cemi",
+    "TunnellingRequest": "raw_cemi",
+    "RoutingIndication": "raw_cemi",
+    "TunnellingFeatureSet": "data",
+    "TunnellingFeatureInfo": "data",
+    "TunnellingFeatureResponse": "data",
+}
+_LISTS = {"SearchResponse": "dibs", "SearchResponseExtended": "dibs", "DescriptionResponse": "dibs", "SearchRequestExtended": "srps"}
+
+
+def surplus_diff(base_body, got_body, surplus: bytes, inside: bool) -> str | None:
+    """Differential for `valid frame + surplus octets`: path of the first field of the
+    accepted frame that is not what the layout of the frame WITHOUT the surplus dictates.
+
+    Behind the announced length (inside=False) nothing may change. Inside the announced
+    length the surplus may only show up where the layout is open-ended: appended to the raw
+    cEMI / feature value, shifting the boundary between encrypted data and MAC of a secure
+    wrapper, or as additional DIB / SRP list elements; every other field must be unchanged."""
+    from checks.c21 import deep_diff
+
+    if type(base_body) is not type(got_body):
+        return "<type>"
+    if not inside:
+        return deep_diff(got_body, base_body)
+    name = type(base_body).__name__
+    b, g = vars(base_body), vars(got_body)
+    if set(b) != set(g):
+        return "<fields>"
+    for k in sorted(b):
+        if _ABSORB.get(name) == k:
+            if g[k] != b[k] + surplus:
+                return f".{k}<not base+surplus>"
+        elif name == "SecureWrapper" and k in ("encrypted_data", "message_authentication_code"):
+            tail = b["encrypted_data"] + b["message_authentication_code"] + surplus
+            if g["encrypted_data"] + g["message_authentication_code"] != tail or len(g["message_authentication_code"]) != 16:
+                return f".{k}<not a re-split of data+mac+surplus>"
+        elif _LISTS.get(name) == k:
+            if len(g[k]) < len(b[k]):
+                return f".{k}<len>"
+            d = deep_diff(g[k][: len(b[k])], b[k], f".{k}")
+            if d:
+                return d
+        else:
+            d = deep_diff(g[k], b[k], f".{k}")
+            if d:
+                return d
+    return None
+
+
+def check_surplus(ctx, frame: bytes, base, surplus: bytes, inside: bool, mcls: str) -> None:
+    """frame (valid) + surplus octets: declared-error clause via check_bytes, and where the
+    frame is accepted, the fields must equal those of the frame without the surplus."""
+    frame, surplus = bytes(frame), bytes(surplus)
+    data = S._with_len(frame + surplus) if inside else frame + surplus  # noqa: SLF001
+    if check_bytes(ctx, data, mcls) != "ok":
+        return
+    kind, val, _steps, _peak = parse(data)
+    if kind != "ok":
+        return
+    got = val[0]
+    d = surplus_diff(base.body, got.body, surplus, inside)
+    if d is not None:
+        cls = type(base.body).__name__
+        ctx.fail(
+            f"C20:surplus-changes-fields:{cls}:{d}",
+            {"base": frame, "surplus": surplus, "inside": inside},
+            f"{data.hex()} parses to {got.body!r}; without the {len(surplus)} surplus octet(s) {'inside' if inside else 'behind'} the announced length: {base.body!r}",
+        )
+
+
 def oracle_frame(ctx, spec: dict) -> None:
     """All by-construction mutants of one generated valid frame."""
     cls = spec["cls"]
@@ -213,6 +290,9 @@ def oracle_frame(ctx, spec: dict) -> None:
         k = check_bytes(ctx, data, mcls)
         if k in ("undeclared", "nonterm") and ctx.fail_counts and sum(ctx.fail_counts.values()) % 200 == 1:
             ctx.sample({"mutation": mcls, "of": cls, "input": data[:40].hex(), "outcome": k})
+    if kind == "ok":
+        for mcls, _data, surplus, inside in S.surplus_variants(frame, bytes(spec.get("_fill", b""))):
+            check_surplus(ctx, frame, val[0], surplus, inside, mcls)
 
 
 def oracle_random(ctx, item) -> None:
@@ -222,7 +302,9 @@ def oracle_random(ctx, item) -> None:
 
 def _shard(ctx, classes: tuple, n: int) -> None:
     for i, cls in enumerate(classes):
-        hyp_collect(ctx, S.body_strategy(cls).filter(S.serialisable).filter(lambda s: len(repr(s)) < 4000), oracle_frame, n, seed_salt=i)
+        specs = S.body_strategy(cls).filter(S.serialisable).filter(lambda s: len(repr(s)) < 4000)
+        # "_fill": generated content of the surplus octets (ignored by S.build)
+        hyp_collect(ctx, st.tuples(specs, st.binary(min_size=4, max_size=4)).map(lambda t: {**t[0], "_fill": t[1]}), oracle_frame, n, seed_salt=i)
     hyp_collect(ctx, S.random_inputs(), oracle_random, n * 20, seed_salt=77)
 
 
@@ -248,6 +330,8 @@ def run(ctx) -> None:
     hyp_collect(ctx, S.valid_frames(), calibrate, ctx.n(300, 2000), seed_salt=55)
     if cal["min_step_headroom"] < HEADROOM or cal["min_mem_headroom"] < HEADROOM:
         raise HarnessError(f"budget headroom below {HEADROOM}x on valid frames: {cal}")
+    for spec in S.CANONICAL_SPECS:  # CRI / CRD variants a small sample may miss (basic, extended 0.0.x, extended, non-tunnel)
+        oracle_frame(ctx, dict(spec))
     for cls, data in S.empty_bodies():
         check_bytes(ctx, data, cls)
     for data in (b"", b"\x06", b"\x05", b"\x06\x10", b"\x06\x11", b"\x06\x10\x05\x30", b"\x06\x10\xff\xff", b"\x06\x10\x05\x30\x00", b"\x00" * 6, b"\xff" * 6):
@@ -267,5 +351,10 @@ def run(ctx) -> None:
 def replay(ctx, case) -> None:
     if isinstance(case, (bytes, bytearray)):
         check_bytes(ctx, bytes(case), "replay")
+    elif isinstance(case, dict) and "base" in case:
+        frame = bytes(case["base"])
+        kind, val, _s, _p = parse(frame)
+        if kind == "ok":
+            check_surplus(ctx, frame, val[0], bytes(case["surplus"]), bool(case.get("inside", True)), "replay")
     elif isinstance(case, dict) and "cls" in case:
         oracle_frame(ctx, case)
